@@ -82,13 +82,13 @@ def byte_plan(cmd, oracle):
             native("native-nostd", cmd, config="relcore", only="top", timeout=7200),
             wasm("wasm-simd128", cmd, procs=16, timeout=7200),
             # thorough: a third of the boundary-focused sample on the vector
-            # targets (rotating with the seed), the whole sample on the two
-            # word-at-a-time targets (fewer entry points there)
+            # targets (rotating with the seed), half of it on the two word-at-a-time
+            # targets (fewer entry points there)
             miri("miri-x86_64", cmd, "miri-x86_64", procs=16, of=48, timeout=7200),
             miri("miri-x86_64-avx2", cmd, "miri-x86_64-avx2", procs=16, of=48, timeout=7200),
             miri("miri-aarch64-neon", cmd, "miri-aarch64", procs=16, of=48, timeout=7200),
-            miri("miri-s390x-be", cmd, "miri-s390x", procs=16, of=16, timeout=7200),
-            miri("miri-i686", cmd, "miri-i686", procs=16, of=16, timeout=7200),
+            miri("miri-s390x-be", cmd, "miri-s390x", procs=16, of=32, timeout=7200),
+            miri("miri-i686", cmd, "miri-i686", procs=16, of=32, timeout=7200),
         ],
     }
 
